@@ -229,14 +229,14 @@ impl OutputChecker<i64> for OutParity {
 
 /// A tolerance checker (not an equivalence relation): the stamp is the output itself; consistent while the output stays within
 /// 400 of it (mod 1000).  A verdict depends on exactly WHICH stamp is stored.
-#[derive(Default, Copy, Clone, PartialEq, Eq, Hash, Debug)]
-pub struct OutNear;
+#[derive(Copy, Clone, PartialEq, Eq, Hash, Debug)]
+pub struct OutNear(pub i64);      // the tolerance is a PARAMETER: two checkers of this one type can differ
 impl OutputChecker<i64> for OutNear {
   type Stamp = i64;
   fn stamp(&self, output: &i64) -> i64 { *output }
   fn check(&self, output: &i64, stamp: &i64) -> Option<impl Debug> {
     let d = (output.rem_euclid(1000) - stamp.rem_euclid(1000)).abs();
-    if d > 400 { Some(d) } else { None }
+    if d > self.0 { Some(d) } else { None }
   }
 }
 
@@ -322,7 +322,8 @@ fn do_req<C: Context>(ctx: &mut C, t: u32, c: u32) -> i64 {
     // dynamically would do), so that consecutive requires reuse addresses or not depending on the state of the allocator
     0 => { let k = Box::new(T(t)); ctx.require(&*k, EqualsChecker) }
     1 => { let k = Box::new(T(t)); ctx.require(&*k, OutParity).rem_euclid(2) }
-    3 => { let k = Box::new(T(t)); ctx.require(&*k, OutNear) }
+    3 => { let k = Box::new(T(t)); ctx.require(&*k, OutNear(400)) }
+    4 => { let k = Box::new(T(t)); ctx.require(&*k, OutNear(100)) }
     _ => { let k = Box::new(T(t)); ctx.require(&*k, AlwaysConsistent); 0 }
   }
 }
@@ -368,7 +369,7 @@ pub fn rc_id(c: &str) -> &'static str {
   match c { "MapEqualsChecker" | "XExact" => "0", "RParity" => "1", "RExists" => "2", "RAlways" => "3", "RFailing" => "4", "RFailStamp" => "5", _ => "?" }
 }
 pub fn oc_id(c: &str) -> &'static str {
-  match c { "EqualsChecker" => "0", "OutParity" => "1", "AlwaysConsistent" => "2", "OutNear" => "3", _ => "?" }
+  match c { "EqualsChecker" => "0", "OutParity" => "1", "AlwaysConsistent" => "2", "OutNear(400)" => "3", "OutNear(100)" => "4", _ => "?" }
 }
 /// stamp Debug text -> the model's Z encoding
 pub fn stamp_num(checker: &str, stamp: &str) -> String {
